@@ -55,6 +55,11 @@ func verifBareNode(version Version, sys, comp byte) *Node {
 	return n
 }
 
+func verifCtx() (context.Context, func()) {
+	ctx, cancel := context.WithCancel(context.Background())
+	return ctx, cancel
+}
+
 func verifBareChannel(n *Node) *Channel {
 	ch := &Channel{node: n}
 	ch.ctx, ch.ctxCancel = context.WithCancel(context.Background())
